@@ -196,6 +196,12 @@ func ResolveAnchors(p *Prog) *Anchors {
 				if isFunc(c, PkgEnv, "", "GetEnviron") {
 					callsGetEnviron = true
 				}
+				// slices.ContainsFunc / IndexFunc ... over the list is the loop over it
+				if fn, ok := c.(*types.Func); ok && fn.Pkg() != nil && fn.Pkg().Path() == "slices" && strings.HasSuffix(fn.Name(), "Func") && len(x.Args) >= 1 {
+					if tv, ok := info.Types[x.Args[0]]; ok && sliceOfPtrTo(tv.Type, PkgAst, "Platform") {
+						rangesPlatforms = true
+					}
+				}
 				if fn, ok := c.(*types.Func); ok && fn.Name() == "OnError" && fn.Pkg() != nil && fn.Pkg().Path() == PkgFingerprint {
 					callsOnError = true
 				}
@@ -210,17 +216,15 @@ func ResolveAnchors(p *Prog) *Anchors {
 					usesEnum = true
 				}
 			case *ast.RangeStmt:
-				if tv, ok := info.Types[x.X]; ok {
-					switch {
-					case sliceOfPtrTo(tv.Type, PkgAst, "Dep"):
-						rangesDeps = true
-					case sliceOfPtrTo(tv.Type, PkgAst, "Platform"):
-						rangesPlatforms = true
-					case sliceOfPtrTo(tv.Type, PkgAst, "Precondition"):
-						rangesPreconds = true
-					case sliceOfPtrTo(tv.Type, PkgAst, "VarsWithValidation"):
-						rangesReqVars = true
-					}
+				switch {
+				case rangesOverPtr(info, x, PkgAst, "Dep"):
+					rangesDeps = true
+				case rangesOverPtr(info, x, PkgAst, "Platform"):
+					rangesPlatforms = true
+				case rangesOverPtr(info, x, PkgAst, "Precondition"):
+					rangesPreconds = true
+				case rangesOverPtr(info, x, PkgAst, "VarsWithValidation"):
+					rangesReqVars = true
 				}
 			case *ast.IndexExpr:
 				if fieldSel(info, x.X, PkgTask, "Executor", "executionHashes") {
@@ -401,9 +405,60 @@ func ResolveAnchors(p *Prog) *Anchors {
 				}
 			}
 		}
+		if a.DeferRunner == nil {
+			// the runner is not the operand of a defer statement: it may be called from inside a deferred literal, in the
+			// body or in RunTask itself (the registration rules then report where and why that is wrong)
+			inspectDeep(a.RunTask.Body, func(n ast.Node) bool {
+				d, ok := n.(*ast.DeferStmt)
+				if !ok {
+					return true
+				}
+				fl, ok := ast.Unparen(d.Call.Fun).(*ast.FuncLit)
+				if !ok {
+					return true
+				}
+				inspectDeep(fl.Body, func(m ast.Node) bool {
+					if call, ok := m.(*ast.CallExpr); ok {
+						if fn, ok := callee(a.RunTask.Info(), call).(*types.Func); ok && a.reachCmd[fn] && a.CmdRunner != nil && fn != a.CmdRunner.Obj && a.DeferRunner == nil {
+							if h := p.DeclOf(fn); h != nil && h != a.DepRunner && h != a.RunTask {
+								a.DeferRunner = h
+							}
+						}
+					}
+					return true
+				})
+				return true
+			})
+		}
 		a.need("deferred-command runner (callee of a defer in the body closure that reaches the command runner)", a.DeferRunner)
 	}
 	return a
+}
+
+// rangesOverPtr: the range statement iterates over elements of type *pkg.name — a slice of them, or an iterator
+// (iter.Seq / iter.Seq2, or any range-over-func) that yields them.
+func rangesOverPtr(info *types.Info, r *ast.RangeStmt, pkg, name string) bool {
+	if tv, ok := info.Types[r.X]; ok && sliceOfPtrTo(tv.Type, pkg, name) {
+		return true
+	}
+	tv, ok := info.Types[r.X]
+	if !ok {
+		return false
+	}
+	if _, isFunc := tv.Type.Underlying().(*types.Signature); !isFunc {
+		return false
+	}
+	for _, e := range []ast.Expr{r.Key, r.Value} {
+		if e == nil {
+			continue
+		}
+		if v := varOf(info, e); v != nil {
+			if pt, ok := v.Type().(*types.Pointer); ok && isNamed(pt.Elem(), pkg, name) {
+				return true
+			}
+		}
+	}
+	return false
 }
 
 func recvOf(fb *FuncBody) string {
@@ -546,7 +601,16 @@ func (a *Anchors) runTaskWrapper(p *Prog, fb *FuncBody, depth int) bool {
 // ctxReachesRunTask: the context variable v of fb is what RunTask receives, directly or through package helpers that pass
 // their own context parameter on.
 func (a *Anchors) ctxReachesRunTask(p *Prog, fb *FuncBody, v *types.Var, depth int) bool {
-	if fb == nil || v == nil || depth < 0 {
+	if v == nil {
+		return false
+	}
+	return a.ctxReachesRunTaskP(p, fb, func(info *types.Info, e ast.Expr) bool { return varOf(info, e) == v }, depth)
+}
+
+// ctxReachesRunTaskP: as ctxReachesRunTask, with the context denoted by a predicate on expressions of fb (a variable, or a
+// field of the receiver when the spawned function is a method value of a struct that carries the context).
+func (a *Anchors) ctxReachesRunTaskP(p *Prog, fb *FuncBody, isCtx func(*types.Info, ast.Expr) bool, depth int) bool {
+	if fb == nil || depth < 0 {
 		return false
 	}
 	info := fb.Info()
@@ -561,7 +625,7 @@ func (a *Anchors) ctxReachesRunTask(p *Prog, fb *FuncBody, v *types.Var, depth i
 			return true
 		}
 		if a.is(fn, a.RunTask) {
-			if len(call.Args) >= 1 && varOf(info, call.Args[0]) == v {
+			if len(call.Args) >= 1 && isCtx(info, call.Args[0]) {
 				found = true
 			}
 			return true
@@ -571,7 +635,7 @@ func (a *Anchors) ctxReachesRunTask(p *Prog, fb *FuncBody, v *types.Var, depth i
 			return true
 		}
 		for i, arg := range call.Args {
-			if varOf(info, arg) != v {
+			if !isCtx(info, arg) {
 				continue
 			}
 			// parameter i of h
@@ -590,6 +654,64 @@ func (a *Anchors) ctxReachesRunTask(p *Prog, fb *FuncBody, v *types.Var, depth i
 		return true
 	})
 	return found
+}
+
+// methodValueSpawn: the expression is a method value `recv.m` of a declared method of package task; it returns the method,
+// and for each field of the receiver's struct literal (given in place, by address, or through a once-assigned local) the
+// expression bound to it.
+func (a *Anchors) methodValueSpawn(p *Prog, fb *FuncBody, e ast.Expr) (*FuncBody, map[string]ast.Expr) {
+	info := fb.Info()
+	sel, ok := ast.Unparen(e).(*ast.SelectorExpr)
+	if !ok {
+		return nil, nil
+	}
+	s := info.Selections[sel]
+	if s == nil || s.Kind() != types.MethodVal {
+		return nil, nil
+	}
+	fn, _ := s.Obj().(*types.Func)
+	h := p.DeclOf(fn)
+	if h == nil || h.Decl == nil || h.Pkg.PkgPath != PkgTask {
+		return nil, nil
+	}
+	recv := ast.Unparen(sel.X)
+	if v := varOf(info, recv); v != nil {
+		if d := singleDef(info, fb.Body, v); d != nil {
+			recv = ast.Unparen(d)
+		}
+	}
+	if u, ok := recv.(*ast.UnaryExpr); ok && u.Op == token.AND {
+		recv = ast.Unparen(u.X)
+	}
+	fields := map[string]ast.Expr{}
+	if lit, ok := recv.(*ast.CompositeLit); ok {
+		var st *types.Struct
+		if tv, ok := info.Types[lit]; ok {
+			st, _ = tv.Type.Underlying().(*types.Struct)
+		}
+		for i, el := range lit.Elts {
+			if kv, ok := el.(*ast.KeyValueExpr); ok {
+				if id, ok := kv.Key.(*ast.Ident); ok {
+					fields[id.Name] = kv.Value
+				}
+			} else if st != nil && i < st.NumFields() {
+				fields[st.Field(i).Name()] = el
+			}
+		}
+	}
+	return h, fields
+}
+
+// recvFieldIs: predicate "the expression is field `name` of h's receiver".
+func recvFieldIs(h *FuncBody, name string) func(*types.Info, ast.Expr) bool {
+	var rv *types.Var
+	if h.Decl != nil && h.Decl.Recv != nil && len(h.Decl.Recv.List) == 1 && len(h.Decl.Recv.List[0].Names) == 1 {
+		rv, _ = h.Info().Defs[h.Decl.Recv.List[0].Names[0]].(*types.Var)
+	}
+	return func(info *types.Info, e ast.Expr) bool {
+		sel, ok := ast.Unparen(e).(*ast.SelectorExpr)
+		return ok && rv != nil && sel.Sel.Name == name && varOf(info, sel.X) == rv
+	}
 }
 
 // bodyParts: the task body as a list of function bodies — the closure and the tail it hands its command loop to.
@@ -624,6 +746,29 @@ func (a *Anchors) isSem(info *types.Info, e ast.Expr) bool {
 				continue
 			}
 			finfo := fb.Info()
+			// a method on a named channel type (take / give of a slot pool): its receiver is the semaphore when every call
+			// site's receiver is the Executor field
+			if fb.Decl.Recv != nil && len(fb.Decl.Recv.List) == 1 && len(fb.Decl.Recv.List[0].Names) == 1 {
+				if rv, _ := finfo.Defs[fb.Decl.Recv.List[0].Names[0]].(*types.Var); rv != nil {
+					if _, isChan := rv.Type().Underlying().(*types.Chan); isChan {
+						all, n := true, 0
+						for _, cb := range a.P.BodiesIn(PkgTask) {
+							for _, call := range callsIn(cb, false) {
+								if fn, ok := callee(cb.Info(), call).(*types.Func); ok && fn == fb.Obj {
+									n++
+									sel, isSel := ast.Unparen(call.Fun).(*ast.SelectorExpr)
+									if !isSel || !fieldSel(cb.Info(), sel.X, PkgTask, "Executor", "concurrencySemaphore") {
+										all = false
+									}
+								}
+							}
+						}
+						if all && n > 0 {
+							a.semParams[rv] = true
+						}
+					}
+				}
+			}
 			idx := 0
 			for _, fld := range fb.Type.Params.List {
 				for _, id := range fld.Names {
